@@ -338,4 +338,6 @@ class LaneSymExec(SymExec):
             return SymExec.intrinsic(self, name, gargs, args, raw_callee)
         if n.endswith("intrinsics::transmute") or base == "transmute":
             return args[0]
+        if n.endswith("IntoIterator>::into_iter") and len(args) == 1:
+            return args[0]        # a Range is its own iterator
         return None
